@@ -64,11 +64,11 @@ def run(ctx: Ctx):
     names = [p for p in vc.pos_params if p not in ("n_const", "order")]
     if len(names) < 8:
         raise AnalysisError(f"validate_constraints has only {len(names)} constraint parameters; anchor changed")
-    table_agree(ctx, names, vc, po, [po, admm, icp, cp, init])
-    kw_forward(ctx, names, vc, po, admm, icp, cp, init, ft)
-    prox_typestate(ctx, names, po, admm, icp, cp)
-    validate_first(ctx, vc, cp, icp)
-    sign_handler(ctx, po)
+    ctx.guarded(table_agree, ctx, names, vc, po, [po, admm, icp, cp, init])
+    ctx.guarded(kw_forward, ctx, names, vc, po, admm, icp, cp, init, ft)
+    ctx.guarded(prox_typestate, ctx, names, po, admm, icp, cp)
+    ctx.guarded(validate_first, ctx, vc, cp, icp)
+    ctx.guarded(sign_handler, ctx, po)
     res.stats["constraint_names"] = names
 
 
@@ -261,6 +261,15 @@ def kw_forward(ctx, names, vc, po, admm, icp, cp, init, ft):
                             ctx.finding("KW-FORWARD", caller, c, f"`order` is not forwarded as order=order to {callee.name}", construct=f"{caller.name}->{callee.name}: order={src(a) if a is not None else '<missing>'}")
 
 
+def order_names_of(f):
+    """locals of ``f`` that hold the tensor order (assigned from tl.ndim(<first parameter>))"""
+    out = set()
+    for s in own_scope_nodes(f.node):
+        if isinstance(s, ast.Assign) and len(s.targets) == 1 and isinstance(s.targets[0], ast.Name) and _is_tensor_order(f, s.value, set()):
+            out.add(s.targets[0].id)
+    return out
+
+
 def _enclosing_stmt(f, node):
     for s in own_scope_nodes(f.node):
         if isinstance(s, ast.stmt) and not isinstance(s, (ast.If, ast.For, ast.While, ast.Try, ast.With, ast.FunctionDef)):
@@ -376,7 +385,10 @@ def prox_typestate(ctx, names, po, admm, icp, cp):
                 if ct.kind == "repo" and ct.funcs[0] is po and a.value.args and src(a.value.args[0]) == src(a.targets[0]) and is_name(a.targets[0].slice, s.target.id if isinstance(s.target, ast.Name) else ""):
                     # the loop must cover every mode: range(<tensor order>) / range(len(factors))
                     it = s.iter
-                    full = isinstance(it, ast.Call) and is_name(it.func, "range") and len(it.args) == 1
+                    full = isinstance(it, ast.Call) and is_name(it.func, "range") and len(it.args) == 1 and (
+                        _is_tensor_order(icp, it.args[0], order_names_of(icp))
+                        or (isinstance(it.args[0], ast.Call) and is_name(it.args[0].func, "len") and it.args[0].args and is_name(it.args[0].args[0], "factors"))
+                    )
                     if full:
                         loops.append(s)
     for initv in ("svd", "random"):
